@@ -134,7 +134,11 @@ def run(scn):
             V('C12.5-after-faults', 'operation %d (compile with rebuild over real readers/searcher/writer, no fault in this call) differs from the same call by fresh objects over a tree that never saw a fault or an earlier call: %s' % (
                 i, hs.diff_obs(r['pristine'][0], r['pristine'][1])), opkind='fsc', what=_difftag(r['pristine'][0], r['pristine'][1]),
               faults_before=sum(recs[j].get('faults_fired', 0) for j in range(i)))
-        for m, (joint, alone) in sorted(r.get('solo', {}).items()):
+        for m, pair in sorted(r.get('solo', {}).items()):
+            joint, alone = pair[0], pair[1]
+            if len(pair) == 4 and pair[2] != pair[3]:
+                V('C12.4-context', 'operation %d: the summary reported for %s by compile(%s) differs from the one reported by compile(%s) on fresh objects over the same sources with the same options: %s' % (
+                    i, m, ', '.join(base['requested']), m, hs.diff_obs(pair[2], pair[3])), opkind='compile', what='co-compiled-summary:' + _difftag(pair[2], pair[3]), module=m)
             if joint != alone:
                 V('C12.4-context', 'operation %d: the text written for %s by compile(%s) differs from the text written for it by compile(%s) on fresh objects over the same sources with the same options' % (
                     i, m, ', '.join(base['requested']), m), opkind='compile', what='co-compiled', module=m)
@@ -252,7 +256,8 @@ def catalog():
     leaving.append({'op': 'read', 'name': 'FOO-MIB', 'omit': [], 'ropts': {}})
     probing = [{'op': 'parse', 'dialect': d, 'file': k, 'tail': 'first-line'} for k in (0, 2, 3)]
     probing += [{'op': 'parse', 'dialect': d, 'file': 1}, {'op': 'parse', 'dialect': d, 'bad': 'grammar-late'}, {'op': 'parse', 'dialect': d, 'bad': 'lex-initial'},
-                {'op': 'parse', 'dialect': d, 'bad': 'multiline-string-then-error'}]
+                {'op': 'parse', 'dialect': d, 'bad': 'multiline-string-then-error'}, {'op': 'parse', 'dialect': d, 'bad': 'no-header-illegal'},
+                {'op': 'parse', 'dialect': d, 'bad': 'no-header-lower'}, {'op': 'parse', 'dialect': d, 'bad': 'name-only'}]
     for cname, mname in (('full', 'FULL-MIB'), ('fullalt', 'FULL-MIB'), ('small', 'AAA-MIB'), ('v1', 'OLD-MIB')):
         probing.append({'op': 'compile', 'modules': {}, 'corpus': [cname], 'requested': [mname], 'codegen': 'json', 'options': {'genTexts': True}})
     probing.append({'op': 'compile', 'modules': {'BBB-MIB': _fixed_spec('BBB-MIB', arc=10)}, 'requested': ['BBB-MIB'], 'codegen': 'json', 'options': {}})
